@@ -45,7 +45,8 @@ def replay(col, case):
                         continue
                     col.count(1)
                     want = fl(case[key])
-                    if not allclose(np.asarray(got, dtype=float).ravel(), [want] * np.asarray(got).size):
+                    # RELATIVE agreement: "exact inverse" has to hold for trace-level mixing ratios, too
+                    if not np.all(np.abs(np.asarray(got, dtype=float).ravel() - want) <= 1e-12 * abs(want)):
                         col.violation("converter-" + key + "-wrong-value", dict(rep, shape=shape, expected=want,
                                                                                 observed=np.asarray(got).tolist()))
             # inverse pairs and two-step routes on the real functions (the TLC-checked identities)
@@ -54,7 +55,7 @@ def replay(col, case):
             for f, g in pairs:
                 for a, b in ((f, g), (g, f)):
                     try:
-                        if v < 1 and not close(b(a(v)), v, 1e-11):
+                        if v < 1 and not abs(b(a(v)) - v) <= 1e-11 * v:
                             col.violation("converter-not-inverse", dict(rep, pair=[a.__name__, b.__name__], observed=float(b(a(v)))))
                     except ZeroDivisionError:
                         pass
@@ -157,7 +158,7 @@ def run(ctx):
     d = ctx.tlc_dir("num")
     res = ctx.tlc(d, "HumidityProps", "HumidityProps.cfg", workers=1, timeout=600)
     cases = list(res.tagged("CASE"))
-    if len(cases) != 12:
+    if len(cases) != 14:
         raise MachineryError("expected 12 humidity grid cases")
     ctx.exhaustive = True
     pmap(ctx, replay, cases, procs=1)
